@@ -9,7 +9,7 @@ CHECKS = {
     # id: (level, technique, text, note, design_ref)
     "C06": ("exploration",
             "exhaustive small-scope enumeration (all multisets x permutations x source partitions) on the real analyzer vs reference bucket sums",
-            "Every multiset of <=3 (quick) / <=4 (thorough) transactions over a 20-element alphabet covering every tag-precedence class, "
+            "Every multiset of <=3 (quick) / <=4 (thorough) transactions over a 23-element alphabet covering every tag-precedence class, "
             "sign and zero, in every order and every split over two sources, is run through the real analyze_transactions and compared with "
             "bucket sums computed from the property statement and with every other arrangement of the same multiset. Bounded-exhaustive, not a proof.",
             "amounts are multiples of 0.25 (exact float sums); alphabet and size bound as stated; reference rule = property statement",
@@ -25,22 +25,22 @@ CHECKS = {
 CHECKS.update({
     "C01": ("exploration",
             "exhaustive small-scope enumeration of rule files (all ordered sequences of <=K blocks x preambles, .rules and legacy CSV) x transactions on the real engine; differential + deletion oracles",
-            "Every ordered sequence of <=3 (quick) / <=4 (thorough) distinct rules over a 15-block .rules alphabet x 3 preambles and over an 11-row legacy CSV alphabet is "
+            "Every ordered sequence of <=3 (quick) / <=4 (thorough) distinct rules over a 17-block .rules alphabet x 4 preambles and over a 13-row legacy CSV alphabet (every other CSV file behind a UTF-8 BOM) is "
             "written to disk, loaded through the same entry points `tally up` uses and through MerchantEngine.match, and run on 72 transactions. Expected winner = first "
-            "categorising rule whose condition is true (truth taken from the real evaluator on the one-rule file / an independent regex+modifier reader for CSV); "
+            "categorising rule whose condition is true (truth taken from the real evaluator on the one-rule file, cross-checked against the reference interpreter for variable-free rules / an independent regex+modifier reader for CSV); "
             "deleting all false rules must leave the entire observable result unchanged; the Unknown merchant name must equal the name under an empty rule set.",
             "condition meaning is delegated to C04; alphabet-bounded; caches reset between files (history is C07's)",
             "DESIGN.md 4/C01"),
     "C02": ("exploration",
             "exhaustive small-scope enumeration of rule files in both rule modes x transactions; union oracle for tags and neutrality (delete all tag-only rules) oracle",
-            "Every ordered sequence of <=3/4 rules over a 13-block alphabet (static, mixed-case and dynamic tags; tag-only rules that outrank categorising ones by specificity or "
-            "priority, share their match text, or carry subcategory/merchant) in first_match and most_specific mode, plus legacy CSV rows with pipe tags, on 72 transactions: the tag "
+            "Every ordered sequence of <=3/4 rules over a 15-block alphabet (static, mixed-case and dynamic tags; tag-only rules that outrank categorising ones by specificity or "
+            "priority, share their match text, or carry subcategory/merchant) in first_match and most_specific mode, plus legacy CSV rows with pipe tags, on 120 transactions (incl. twins that differ only in custom fields): the tag "
             "set must equal the union of the resolved tags of all true rules, and removing every category-less rule must not change merchant/category/subcategory.",
             "dynamic tag values come from the real evaluator on the tag expression alone; tags compared as sets",
             "DESIGN.md 4/C02"),
     "C09": ("exploration",
             "exhaustive enumeration of all subsets x all permutations of <=K rules x transactions in most_specific mode against an AST-derived lexicographic rank key",
-            "Every ordered sequence of <=4 (quick) / <=5 (thorough) distinct rules from a 12-rule alphabet with two exact-tie pairs is evaluated on 18 transactions through "
+            "Every ordered sequence of <=4 (quick) / <=5 (thorough) distinct rules from a 16-rule alphabet with two exact-tie pairs, a priority-0 rule, a same-category pair and a let-binding pair is evaluated on 18 transactions through "
             "engine.match, normalize_merchant, and normalize_merchant after the same file was first loaded in first_match mode; category must come from the top-ranked true "
             "categorising rule (ties to the earlier rule), subcategory from the top-ranked one that sets a subcategory, tags from all true rules.",
             "rank key read from the AST; alphabet restricted to rules where a textual reading gives the same key (asserted at start-up)",
@@ -50,31 +50,31 @@ CHECKS.update({
 CHECKS.update({
     "C14": ("exploration",
             "exhaustive product enumeration of legacy CSV rule files x boundary transactions; differential execution of the real migration (CSV rules vs migrated merchants.rules vs load_csv_as_engine)",
-            "Every one-row CSV over 17 regex patterns x 13 modifier forms x 3 merchant names x category set/empty x 3 tag forms, and every ordered pair (quick) / triple (thorough) "
-            "over a 20-row reduced alphabet, is migrated by the real _migrate_csv_to_rules in a scratch budget; the generated file must load and normalize_merchant must give the "
+            "Every one-row CSV over 24 regex patterns (incl. non-ASCII) x 18 modifier forms x 4 merchant names x category set/empty x 4 tag forms, and every ordered pair (quick) / triple (thorough) "
+            "over a 27-row reduced alphabet (incl. short rows and padded names), is migrated by the real _migrate_csv_to_rules in a scratch budget; the generated file must load and normalize_merchant must give the "
             "same (merchant, category, subcategory, tag set) for every description x boundary amount x boundary date before and after, and through load_csv_as_engine.",
-            "today fixed at 2025-06-15; two recorded known findings (relative dates, ' and ' inside a CSV regex)",
+            "today fixed at 2025-06-15; three recorded known findings (relative dates, ' and ' inside a CSV regex, a comma inside a pipe-separated tag)",
             "DESIGN.md 4/C14"),
 })
 
 CHECKS.update({
     "C05": ("exploration",
             "exhaustive enumeration of cell tables x layouts x delimiters x header x decimal x sign; expected transactions computed from the cells by an independent reader; row-independence transition oracle",
-            "Every table of <=2 (quick) / <=3 (thorough) rows over 29 row kinds is rendered under 7 layouts x 4 delimiter kinds x header/no header x 2 decimal conventions x 4 sign modes "
+            "Every table of <=2 (quick) / <=3 (thorough) rows over 36 row kinds (incl. six dates only a strict reading of the format rejects) is rendered under 7 layouts x 4 delimiter kinds x header/no header x 2 decimal conventions x 4 sign modes "
             "and read by the real resolve_source_format + parse_generic_csv; the result must equal the transactions derived from the cell table, and parse(table) must equal the "
-            "concatenation of parse(row) for each row.",
+            "concatenation of parse(row) for each row; small tables are read again behind a UTF-8 byte-order mark and must read the same.",
             "reference reader is Decimal-based and follows the statement; ambiguous numerals / trailing date text / unrepresentable rows excluded and listed in assumptions",
             "DESIGN.md 4/C05"),
     "C18": ("exploration",
             "exhaustive enumeration of column-token sequences (valid and invalid) x date formats x templates x spellings against a reference mapper; exhaustive header rows x date styles through the real inspect command with round-trip oracle",
-            "All 11k (quick) / 111k (thorough) token sequences x 3 date formats x 4 templates x 4 spellings must be parsed to exactly the reference positions/date format/sign mode or rejected; "
-            "for every header row of <=4/5 cells over 15 header texts (x5 data date styles) on which `tally inspect` prints a suggestion, parse_format_string must accept it and select the "
+            "All 11k (quick) / 111k (thorough) token sequences x 3 date formats x 4 templates x 4 spellings must be parsed to exactly the reference positions/date format/sign mode or rejected (accepted strings are parsed twice; arrangements with a duplicate are also tried under every upper/lower-case mask); "
+            "for every header row of <=4/5 cells over 18 header texts (x5 data date styles), plus a 5-column family with every ordered pair of further headers, on which `tally inspect` prints a suggestion, parse_format_string must accept it and select the "
             "date/description/amount columns inspect reported.",
             "arrangements with {description} plus a satisfiable template are not judged; inspect run in-process",
             "DESIGN.md 4/C18"),
     "C19": ("exploration",
             "exhaustive enumeration of token-sequence descriptions x processor prefixes through the real suggestion functions, loader and matcher; end-to-end discover->append->discover runs in forked CLI processes",
-            "Every description of <=4 (quick) / <=5 (thorough) tokens over an 18-token alphabet (regex metacharacters, quotes, backslash, store numbers, zip codes, state codes, non-ASCII) "
+            "Every description of <=4 (quick) / <=5 (thorough) tokens over a 26-token alphabet (regex metacharacters, quotes, backslash, store numbers, zip codes, state codes, long tokens, non-ASCII incl. characters whose upper-case form is longer) "
             "x 6 prefixes: the suggested rule must load and, with a category filled in, match that description; 18/54 end-to-end budgets must end with an empty Unknown list.",
             "placeholders CATEGORY/SUBCATEGORY replaced textually; alphabet-bounded",
             "DESIGN.md 4/C19"),
@@ -83,8 +83,8 @@ CHECKS.update({
 CHECKS.update({
     "C07": ("model_checking",
             "explicit-state search over operation histories on the real process state: every history of <=D ops is replayed in a forked child, each observation executed in a grandchild forked from the reached state, compared with a fresh process",
-            "All histories of length <=3 (quick) / <=4 (thorough) over 19 operations (loads of .rules/CSV/bad/no file in both modes, a reload that rewrites a file, classifications of 5 "
-            "transactions incl. two that differ only in a custom field, engine matches, 4 cache-colliding expressions) are executed on the real module-level caches; on every "
+            "All histories of length <=3 (quick) / <=4 (thorough) over 21 operations (loads of .rules/CSV/bad/no file in both modes, a reload that rewrites a file, classifications of 5 "
+            "transactions incl. two that differ only in a custom field, engine matches, 4 cache-colliding expressions and a := binder / reader pair; one CSV file carries a relative-date row) are executed on the real module-level caches; on every "
             "(history, observation) transition the result must equal the same observation in a fresh process that performed only the last load, and rules / supplemental rows / "
             "caller's field dict must be unchanged. States are histories (no abstraction), so every trace is an execution of the implementation.",
             "fresh process = fork of a worker that imported tally and never loaded or evaluated anything; depth- and alphabet-bounded",
@@ -94,10 +94,10 @@ CHECKS.update({
 CHECKS.update({
     "C17": ("model_checking",
             "explicit-state BFS over layout-preserving edits of seed files (text-deduplicated) with the real loader as transition function; exhaustive single-point corruptions judged by a strict structural reader; corrupt budgets through forked CLI runs",
-            "From 144 merchants seeds and 32 views seeds every text reachable by <=2 layout edits (<=3 for one-section seeds in thorough) is parsed by the real loader and must yield "
-            "exactly the seed's structure (~0.5M states quick). Every single-line deletion, structural-character deletion, unknown key, malformed let/field/priority/match/filter and "
-            "5 invalid-expression kinds on every seed must be rejected with the offending line or its header (or read as the strict reader reads it); 8 corruption kinds x "
-            "`tally up --format json` / `up --summary` / `diag` must show the error and must not behave as with an empty rules file.",
+            "From 196 merchants seeds and 32 views seeds every text reachable by <=2 layout edits (<=3 for one-section seeds in thorough) is parsed by the real loader and must yield "
+            "exactly the seed's structure (~0.9M states quick); edits include comments holding Unicode / C0 line-separator characters. Every single-line deletion, structural-character deletion, unknown key, malformed let/field/priority/match/filter and "
+            "5 invalid-expression kinds on every seed must be rejected with the offending line or its header (or read as the strict reader reads it); every seed written to disk as LF / CRLF with and without a BOM must load to the same reading; 8 corruption kinds x "
+            "`tally up` (2 forms) / `diag` / `discover` (2) / `explain` (3) must show the error and must not behave as with an empty rules file.",
             "strict reader = mc/ref/rulesfile.py; ambiguous corruptions (duplicate single-valued keys) not judged",
             "DESIGN.md 4/C17"),
 })
@@ -107,14 +107,14 @@ CHECKS.update({
             "exhaustive crash-point x torn-write and single-OSError enumeration over the recorded file-system effect log of the real migration code, with recovery (re-run) oracle",
             "For `tally up --migrate`, `tally init` and run_migrations on 28 budget variants the command runs under a harness-side file-system interposer that numbers every create / "
             "flush / append / rename / mkdir / remove; for every effect k the run is repeated with a crash right after k (plus data torn to half / nothing when k lands data) and with an "
-            "OSError instead of k. Each resulting tree must keep every user file's bytes, must classify the probe statement with the user's rules either directly or after one fault-free "
+            "OSError instead of k (for a step issued by shutil.move also with the whole move failing, copy fallback included). Each resulting tree must keep every user file's bytes, must classify the probe statement with the user's rules either directly or after one fault-free "
             "re-run of the same command, and must never classify everything as Unknown while the rules exist on disk. The interposer is checked for transparency and for unowned effects "
             "on every case.",
             "crash = no later effect reaches the disk; no OS-level write reordering (tally never fsyncs); effects are those reachable through open/os.rename/replace/mkdir/remove",
             "DESIGN.md 4/C15"),
     "C20": ("model_checking",
             "explicit-state level-synchronous BFS over budget directory trees with the real CLI commands as transitions (forked processes), tree-hash visited set, frame-condition invariant on every transition",
-            "From 9 initial budget trees (new/old layout, missing views/rules, legacy CSV with rules / header only / with existing backup and unreferenced merchants.rules, CRLF and "
+            "From 13 initial budget trees (new/old layout, missing views/rules, a views_file setting naming an absent file, legacy CSV with rules / header only / with existing backups incl. gaps in their numbering and unreferenced merchants.rules, CRLF and "
             "trailing-blank settings) all 13 commands (up in 4 output modes, explain x2, discover x2, diag, inspect, init, init <dir>, up --migrate) are applied to every reachable tree "
             "up to depth 3 (quick) / 6 or fixpoint (thorough); read-only commands must leave every file outside the output location byte-identical and create nothing outside it; init / "
             "--migrate must keep every user file (settings may only grow, the legacy CSV may only move to a fresh .bak* with identical bytes).",
@@ -125,9 +125,9 @@ CHECKS.update({
 CHECKS.update({
     "C03": ("exploration",
             "exhaustive enumeration of three expression-string corpora x load/evaluation contexts on the real evaluator under a runtime monitor (CPython audit hook, value-kind walker, before/after deep equality)",
-            "2.6k node-instance strings (every expression node class / operator / call shape / literal kind x 15 nesting wrappers), 25k attribute-closure strings (15 receivers x every "
+            "2.9k node-instance strings (every expression node class / operator / call shape / literal kind x 15 nesting wrappers), 25k attribute-closure strings (15 receivers x every "
             "dir() name of 16 builtin types x 6 shapes, enumerated at run time) and 44k payload strings (classic escapes and all ordered pair splices) are loaded and evaluated "
-            "directly, in the 6 positions of a .rules file and as view filter / variable. No audit event may be raised by evaluation (only `compile` of the text when parsing), every "
+            "directly, in the 6 positions of a .rules file and as view filter / variable (over a merchant with four payments out of date order); a residue family evaluates 13 name-binding expressions followed by 10 readers on another transaction (directly and as two rules of one engine). No audit event may be raised by evaluation (only `compile` of the text when parsing), every "
             "produced value / tag / field / transformed description must be plain data, transaction / rows / variables / ast.dump must be unchanged, and undocumented constructs must "
             "be rejected or fail as ExpressionError.",
             "strings outside the corpora are not covered; quick tier runs file contexts for the node corpus fully and for payloads round-robin, closure strings directly; thorough runs all contexts",
@@ -138,8 +138,8 @@ CHECKS.update({
     "C08": ("exploration",
             "exhaustive product enumeration of ill-typed / partial / lazily failing expressions x positions x placements x transactions processed in sequence; differential oracle against a fresh engine and against the file with the failing element removed",
             "56 syntactically valid but failing expressions (type confusion, bad regexes, empty sequences, exhausted generators, unknown names, expressions failing only for some items, "
-            "generators that fail when consumed) in each of 7 positions (match, let unused/used, field, tag, transform, top-level variable) at 3 placements, on 10 transactions fed through "
-            "one engine with failing items first, via engine.match, normalize_merchant and parse_generic_csv; 14 failing view expressions as filter / variable through "
+            "generators that fail when consumed) in each of 9 positions (match, match after a let: that shadows a global, let unused/used, field, tag, transform before / after a decisive transform of the same field, top-level variable) at 3 placements, on 10 transactions fed through "
+            "one engine with failing items first, via engine.match, normalize_merchant and parse_generic_csv; 14 failing view expressions as filter / view-local variable / global variable through "
             "analyze_transactions -> classify_by_sections. No exception may escape, all rows must come back, a failure on one item must not affect another, and the outcome for a "
             "failing item must equal that of the file without the failing element.",
             "failure for an item is decided by evaluating the expression alone with the real evaluator; loader-rejected files are outside the property",
@@ -149,8 +149,8 @@ CHECKS.update({
 CHECKS.update({
     "C04": ("exploration",
             "exhaustive enumeration of a typed expression grammar up to an operator bound x transactions; differential execution of the real evaluator against an independent reference interpreter (translation to Python) plus equivalence-law instances",
-            "All 6.3k (quick, <=2 operators) / ~100k (thorough, <=3) well-typed expressions over Bool/Num/Str/Rows layers are evaluated on 12 boundary transactions with supplemental "
-            "rows by the real evaluator and by mc/ref/expr.py; wherever the reference is defined the values must be identical. On every ordered pair of a 28-element Boolean basis x "
+            "All 6.8k (quick, <=2 operators) / ~100k (thorough, <=3) well-typed expressions over Bool/Num/Str/Rows layers are evaluated on 16 boundary transactions (incl. twins sharing a description and literal regex metacharacters) with supplemental "
+            "rows by the real evaluator and by mc/ref/expr.py, and again without variables / sources; wherever the reference is defined the values must be identical. On every ordered pair of a 30-element Boolean basis x "
             "every transaction: double negation, both De Morgan laws, commutation of error-free and/or operands, letter-case invariance (names, literals, description), and "
             "agreement of evaluate_transaction with matches_transaction and a one-rule engine; all chains a o1 b o2 c over 6 operands x 36 operator pairs equal their conjunction; "
             "short-circuit with 5 erroring operands and := evaluation-order probes.",
@@ -160,8 +160,8 @@ CHECKS.update({
 
 CHECKS.update({
     "C10": ("exploration",
-            "exhaustive enumeration of views files (all sequences of <=K views over 23 filters) x merchant sets (<=3 of 12 payment histories) through the real analyse/classify chain against reference primitives recomputed from raw transactions; independence and totals transition oracles",
-            "Every sequence of <=2 views over 23 filters (thorough: also <=3 over a 10-filter sub-alphabet) x every set of <=3 merchants from 12 payment histories runs through "
+            "exhaustive enumeration of views files (all sequences of <=K views over 28 filters) x merchant sets (<=3 of 14 payment histories) through the real analyse/classify chain against reference primitives recomputed from raw transactions; independence and totals transition oracles",
+            "Every sequence of <=2 views over 28 filters incl. chained comparisons (thorough: also <=3 over a 10-filter sub-alphabet) x every set of <=3 merchants from 14 payment histories incl. a 29 February payment runs through "
             "analyze_transactions -> classify_by_sections -> compute_section_totals; each (view, merchant) membership must equal the filter evaluated by mc/ref/views.py over the "
             "merchant's own raw payments (months, total, population cv, tags, by(), aggregates, period(), global and view-local variables), merchants tagged income/transfer/"
             "investment in any letter case never appear, an unevaluable filter excludes, a view's membership must equal its membership when it is the only view, and each view's "
@@ -173,8 +173,8 @@ CHECKS.update({
 CHECKS.update({
     "C12": ("exploration",
             "exhaustive enumeration of transaction subsets x views x output formats through the real analyser and all renderers; the HTML is decoded with html.parser + json and compared with the analysed data; printed figures compared with reference bucket sums",
-            "Every subset of <=3 (quick) / <=4 (thorough) of 14 adversarial transactions (colliding merchant ids, </script>, quotes, backslashes, placeholder text, braces, "
-            "non-ASCII, refunds, negative income, transfers, investment, zero-net merchant, extra fields) with and without views is rendered as HTML (embedded and separate files), "
+            "Every subset of <=3 (quick) / <=4 (thorough) of 19 adversarial transactions (colliding merchant ids, </script>, quotes, backslashes, placeholder text, braces, "
+            "non-ASCII, refunds, negative income, transfers, investment, zero-net merchant, two special tags on one transaction, a name equal to a suffixed id, extra fields) with and without views is rendered as HTML (embedded and separate files), "
             "JSON, Markdown (verbosity 0-2), text summary and views summary; no renderer may raise, every printed income/spending/credits/transfer/cash-flow figure must equal "
             "the analysed one at that format's precision, and the decoded HTML payload must contain every merchant and every transaction exactly once with identical fields and "
             "category sums that add up.",
@@ -185,9 +185,9 @@ CHECKS.update({
 CHECKS.update({
     "C11": ("exploration",
             "deviation-bounded exhaustive enumeration of budget configurations (all budgets within <=B single-setting deviations of a default), each run through the real CLI in fresh forked processes and compared with a pipeline assembled from library components and abstract statement rows",
-            "The default budget and every budget at <=2 (quick, ~800 budgets) / <=3 (thorough) deviations over 35 single-setting deviations (per-source layout, delimiter, header, "
+            "The default budget and every budget at <=2 (quick, ~950 budgets) / <=3 (thorough) deviations over 44 single-setting deviations (per-source layout, delimiter, header, "
             "decimal separator, sign mode, name, missing / directory / invalid-UTF-8 file; rules as .rules / legacy CSV / none / dangling; rule mode; views none / broken; currency "
-            "format; 1-3 sources incl. a twin with an identical format string and different overrides; supplemental source; source order) runs `tally up --format json -v`, "
+            "format; 1-3 sources incl. a twin with an identical format string and different overrides; supplemental source present / absent / with a Latin-1 byte; rule-mode spellings; source order) runs `tally up --format json -v`, "
             "`--format summary` and the HTML report. Merchants (category, subcategory, tags, totals, counts, raw descriptions), summary figures, view membership and HTML data must "
             "equal what normalize_merchant / analyze_transactions / classify_by_sections produce from the abstract rows; unreadable sources must be named.",
             "library components are trusted here (judged by C01/C05/C06/C10); message wording and merchant order are not judged",
@@ -199,7 +199,7 @@ CHECKS.update({
             "exhaustive enumeration of budgets over rule-file feature subsets x rule mode x transform x supplemental; three-way differential execution of `tally up`, `tally explain` and `tally discover` through the real CLI in forked processes, with twin budgets as oracle for description probes",
             "Every budget over feature subsets (<=1 feature quick, all 64 subsets thorough) of {tag-only rule first, top-level variable, let+field, not contains(), weekday, \"X\" in "
             "description} x 2 rule modes x transform on/off x supplemental source on/off, plus legacy-CSV budgets: for every merchant `up` reports, `explain <merchant>` must give the same "
-            "category / subcategory / tags / pattern; for 8 (description, amount) probes `explain <description> --amount` must equal what `up` assigns to that row in a twin budget "
+            "category / subcategory / tags / pattern; for 13 (description, amount) probes (incl. sign-sensitive and blank-run-sensitive rules) `explain <description> --amount` must equal what `up` assigns to that row in a twin budget "
             "containing it; `discover --format json` must list exactly the raw descriptions `up` leaves Unknown with equal counts and totals.",
             "probes are independent of date / source / custom fields; each comparison is between real CLI runs in fresh processes",
             "DESIGN.md 4/C16"),
